@@ -16,7 +16,7 @@ from detsim.sched import HarnessError, Scheduler
 PROP = "C18"
 LEVEL = "exploration"
 RUNS = {"quick": 1600, "thorough": 30000}
-BUDGET_S = {"quick": 90, "thorough": 1500}
+BUDGET_S = {"quick": 150, "thorough": 1500}
 CASES_PER_RUN = 120
 CASES_PER_LONG_RUN = 420
 RULE = ("each evaluation is one text: a generated well-formed chart damaged by a seeded sequence "
